@@ -567,6 +567,13 @@ def real_socket_stage(rep: Report, tier: str, seed: int) -> tuple[list[dict[str,
             tr["scn"] = {"fam": "real-two-clients", "kind": kind, "mode": "lockstep", "n": len(ma)}
             tr["lens"] = [len(m) for m in ma]
             results.append(tr)
+        # ... and a burst to a slowly reading peer followed by close(): nothing whose write() returned may be lost
+        burst = [bytes([0x36, i % 256]) + bytes((i + j) % 256 for j in range(1500)) for i in range(200)]
+        for tr in L.run_real(lambda d, kind=kind: L.real_burst_then_close(kind, burst, d)):
+            tr["feat"] = {"nontrivial": True, "eof": "after-all"}
+            tr["scn"] = {"fam": "real-burst-close", "kind": kind, "mode": "burst", "n": len(burst)}
+            tr["lens"] = [len(m) for m in burst]
+            results.append(tr)
     rep.extra["real_socket_runs"] = sum(1 for r in results if r["kind"].startswith("real-"))
     return results, pairs
 
